@@ -477,6 +477,11 @@ fn emit_named(out: &mut String, s: &Survey) {
                     writeln!(out, "  out.push(' '); ::bn_rt::Show::show(&self.{f}, out);").unwrap();
                 }
                 writeln!(out, "  out.push(')'); }} }}").unwrap();
+                writeln!(out, "impl{ig} ::bn_rt::Consume for {p}{tg} {{ fn consume(self) {{").unwrap();
+                for f in fields {
+                    writeln!(out, "  ::bn_rt::Consume::consume(self.{f});").unwrap();
+                }
+                writeln!(out, "}} }}").unwrap();
                 writeln!(out, "impl{ig} ::bn_rt::Build for {p}{tg} {{ fn build(t: &::bn_rt::Term) -> Self {{ let items = t.items(); {p} {{").unwrap();
                 for (i, f) in fields.iter().enumerate() {
                     writeln!(out, "  {f}: ::bn_rt::Build::build(&items[{i}]),").unwrap();
@@ -490,6 +495,15 @@ fn emit_named(out: &mut String, s: &Survey) {
                         writeln!(out, "  {p}::{c}(e) => {{ out.push_str(\"(var {i}\"); ::bn_rt::Show::show_payload(e, out); out.push(')'); }}").unwrap();
                     } else {
                         writeln!(out, "  {p}::{c} => out.push_str(\"(var {i})\"),").unwrap();
+                    }
+                }
+                writeln!(out, "}} }} }}").unwrap();
+                writeln!(out, "impl{ig} ::bn_rt::Consume for {p}{tg} {{ fn consume(self) {{ match self {{").unwrap();
+                for (c, payload) in cases.iter() {
+                    if *payload {
+                        writeln!(out, "  {p}::{c}(e) => ::bn_rt::Consume::consume(e),").unwrap();
+                    } else {
+                        writeln!(out, "  {p}::{c} => {{}}").unwrap();
                     }
                 }
                 writeln!(out, "}} }} }}").unwrap();
@@ -509,6 +523,7 @@ fn emit_named(out: &mut String, s: &Survey) {
                     writeln!(out, "  {p}::{c} => {i},").unwrap();
                 }
                 writeln!(out, "}}; out.push_str(&format!(\"(e {{i}})\")); }} }}").unwrap();
+                writeln!(out, "impl ::bn_rt::Consume for {p} {{}}").unwrap();
                 writeln!(out, "impl ::bn_rt::Build for {p} {{ fn build(t: &::bn_rt::Term) -> Self {{ match t {{").unwrap();
                 for (i, c) in cases.iter().enumerate() {
                     writeln!(out, "  ::bn_rt::Term::E({i}) => {p}::{c},").unwrap();
@@ -516,6 +531,7 @@ fn emit_named(out: &mut String, s: &Survey) {
                 writeln!(out, "  o => panic!(\"bn: bad enum term {{o:?}}\"), }} }} }}").unwrap();
             }
             Named::Flags { n } => {
+                writeln!(out, "impl ::bn_rt::Consume for {p} {{}}").unwrap();
                 writeln!(
                     out,
                     "impl ::bn_rt::Show for {p} {{ fn show(&self, out: &mut String) {{ let b = self.bits() as u128; out.push_str(\"(fl \"); for i in 0..{n} {{ out.push(if (b >> i) & 1 == 1 {{ '1' }} else {{ '0' }}); }} out.push(')'); }} }}"
@@ -535,9 +551,17 @@ fn emit_named(out: &mut String, s: &Survey) {
                         "impl ::bn_rt::Show for {p} {{ fn show(&self, out: &mut String) {{ let id = self.get::<self::BnRes>().id; out.push_str(&format!(\"(h {{id}})\")); }} }}"
                     )
                     .unwrap();
+                    // user code creating a resource: plainly, or create / into_inner / wrap again (policy)
                     writeln!(
                         out,
-                        "impl ::bn_rt::Build for {p} {{ fn build(t: &::bn_rt::Term) -> Self {{ match t {{ ::bn_rt::Term::H(id) => {p}::new(self::BnRes::make(*id)), o => panic!(\"bn: bad handle term {{o:?}}\"), }} }} }}"
+                        "impl ::bn_rt::Build for {p} {{ fn build(t: &::bn_rt::Term) -> Self {{ match t {{ ::bn_rt::Term::H(id) => {{ let r = {p}::new(self::BnRes::make(*id)); if ::bn_rt::next_policy(4) == 0 {{ ::bn_rt::emit(&format!(\"take:{{id}}\")); let v = r.into_inner::<self::BnRes>(); {p}::new(v) }} else {{ r }} }}, o => panic!(\"bn: bad handle term {{o:?}}\"), }} }} }}"
+                    )
+                    .unwrap();
+                    // user code receiving an own handle of its own resource: drop it / look at it and drop it /
+                    // into_inner and drop the payload / into_inner and keep the payload for later (policy)
+                    writeln!(
+                        out,
+                        "impl ::bn_rt::Consume for {p} {{ fn consume(self) {{ match ::bn_rt::next_policy(4) {{ 0 => drop(self), 1 => {{ let id = self.get::<self::BnRes>().id; let _ = id; drop(self) }}, 2 => {{ let id = self.get::<self::BnRes>().id; ::bn_rt::emit(&format!(\"take:{{id}}\")); let v = self.into_inner::<self::BnRes>(); drop(v) }}, _ => {{ let id = self.get::<self::BnRes>().id; ::bn_rt::emit(&format!(\"take:{{id}}\")); let v = self.into_inner::<self::BnRes>(); let k = ::bn_rt::stash(Box::new(v)); ::bn_rt::emit(&format!(\"kept:{{id}}:{{k}}\")); }} }} }} }}"
                     )
                     .unwrap();
                 } else {
@@ -546,6 +570,7 @@ fn emit_named(out: &mut String, s: &Survey) {
                         "impl ::bn_rt::Show for {p} {{ fn show(&self, out: &mut String) {{ out.push_str(&format!(\"(h {{}})\", self.handle())); }} }}"
                     )
                     .unwrap();
+                    writeln!(out, "impl ::bn_rt::Consume for {p} {{ fn consume(self) {{ drop(self) }} }}").unwrap();
                     writeln!(
                         out,
                         "impl ::bn_rt::Build for {p} {{ fn build(t: &::bn_rt::Term) -> Self {{ match t {{ ::bn_rt::Term::H(h) => unsafe {{ {p}::from_handle(*h) }}, o => panic!(\"bn: bad handle term {{o:?}}\"), }} }} }}"
@@ -559,6 +584,7 @@ fn emit_named(out: &mut String, s: &Survey) {
                     "impl<'a> ::bn_rt::Show for {p}<'a> {{ fn show(&self, out: &mut String) {{ let id = self.get::<self::BnRes>().id; out.push_str(&format!(\"(h {{id}})\")); }} }}"
                 )
                 .unwrap();
+                writeln!(out, "impl<'a> ::bn_rt::Consume for {p}<'a> {{}}").unwrap();
                 // never built (borrows only travel host -> guest); needed because records containing one get a `Build` impl
                 writeln!(out, "impl<'a> ::bn_rt::Build for {p}<'a> {{ fn build(_t: &::bn_rt::Term) -> Self {{ unreachable!(\"bn: a borrow of an exported resource is never built by the harness\") }} }}").unwrap();
             }
@@ -633,7 +659,7 @@ fn stub_method(m: &syn::TraitItemFn, key: &str, adrivers: &str) -> String {
             syn::FnArg::Typed(pt) => {
                 let n = pt.pat.to_token_stream().to_string();
                 write!(shows, "s.push(' '); ::bn_rt::Show::show(&{n}, &mut s); ").unwrap();
-                write!(drops, "drop({n}); ").unwrap();
+                write!(drops, "::bn_rt::Consume::consume({n}); ").unwrap();
             }
         }
     }
@@ -750,7 +776,7 @@ fn emit_item(idx: usize, cfg: &Config, wit: &str) -> Result<(String, ItemOut)> {
     glue.push_str("\n// ===================== bind-native glue (emitted by /verif/harness/bind-native) =====================\n");
     glue.push_str("pub struct BnStub;\n");
     glue.push_str(
-        "pub struct BnRes { pub id: u32 }\nimpl BnRes { pub fn make(id: u32) -> Self { BnRes { id } } }\nimpl Drop for BnRes { fn drop(&mut self) { ::bn_rt::note(format!(\"user-drop:{}\", self.id)); } }\nimpl ::bn_rt::Show for BnRes { fn show(&self, out: &mut String) { out.push_str(&format!(\"(h {})\", self.id)); } }\nimpl ::bn_rt::Build for BnRes { fn build(t: &::bn_rt::Term) -> Self { match t { ::bn_rt::Term::H(id) => BnRes::make(*id), o => panic!(\"bn: bad handle term {o:?}\") } } }\n",
+        "/// the user's resource type: a payload with drop glue (heap string) and a drop counter (`udrop:<id>` events)\npub struct BnRes { pub id: u32, pub name: String }\nimpl BnRes { pub fn make(id: u32) -> Self { ::bn_rt::emit(&format!(\"mk:{id}\")); BnRes { id, name: format!(\"payload-{id}\") } } }\nimpl Drop for BnRes { fn drop(&mut self) { assert_eq!(self.name, format!(\"payload-{}\", self.id), \"bn: payload of resource {} is corrupt (dropped twice / read after free)\", self.id); ::bn_rt::emit(&format!(\"udrop:{}\", self.id)); } }\nimpl ::bn_rt::Show for BnRes { fn show(&self, out: &mut String) { out.push_str(&format!(\"(h {})\", self.id)); } }\nimpl ::bn_rt::Build for BnRes { fn build(t: &::bn_rt::Term) -> Self { match t { ::bn_rt::Term::H(id) => BnRes::make(*id), o => panic!(\"bn: bad handle term {o:?}\") } } }\nimpl ::bn_rt::Consume for BnRes { fn consume(self) { drop(self) } }\n",
     );
     emit_named(&mut glue, &survey);
 
